@@ -1,4 +1,5 @@
 """C40 -- keywording requests only name valid, narrowed, not-yet-present arches (DESIGN.md section 4, C40)."""
+import os
 import itertools
 import random
 import z3
@@ -211,10 +212,61 @@ def enum_best_version(seed):
     return {"name": "C40.select_best_version.bounded_enumeration", "bound": "every list of <= 4 versions, each keyworded or not and live or not, ascending and descending", "cases": cases, "failures": fails}
 
 
+def enum_real_repositories(seed):
+    """which arches count as known to the repository: real on-disk repositories (a master, an overlay on top of it with an arch list of its
+    own, an empty one, none at all) through UnconfiguredTree.known_arches -- the overlay knows its own arches and every arch of its masters --
+    and the real match_packages on the overlay: a request naming a master's arch resolves, * expands over master and overlay arches"""
+    import shutil
+    import tempfile
+    from pkgcore.ebuild import repo_objs, repository
+    from pkgcore.ebuild.atom import atom
+    from pkgcore.ebuild.keywording import match_packages
+    from pkgcore.pytest.plugin import EbuildRepo
+    scratch = tempfile.mkdtemp(prefix="c40.", dir=os.environ.get("PYVC_SCRATCH", "/var/tmp"))
+    fails, cases = [], 0
+    try:
+        for i, own in enumerate((("riscv",), ("riscv", "amd64"), (), None)):
+            d = os.path.join(scratch, f"r{i}")
+            master = EbuildRepo(f"{d}/master", repo_id="master", arches=("amd64", "x86"))
+            overlay = EbuildRepo(f"{d}/overlay", repo_id="overlay", masters=("master",), arches=own or ())
+            if own is None:
+                try:
+                    os.unlink(os.path.join(overlay.path, "profiles", "arch.list"))
+                except OSError:
+                    pass
+            every = sorted({"amd64", "x86"} | set(own or ()))
+            overlay.create_ebuild("cat/pkg-1", keywords=every)
+            overlay.create_ebuild("cat/pkg-2", keywords=["~" + a for a in every])
+            model = {"master_arch_list": ["amd64", "x86"], "overlay_arch_list": list(own) if own is not None else None}
+            cases += 1
+            try:
+                tree = repository.UnconfiguredTree(overlay.path, masters=(master._repo,), repo_config=repo_objs.RepoConfig(location=overlay.path))
+                known = sorted(tree.known_arches)
+            except Exception as e:
+                fails.append({"model": model, "detail": f"building the overlay (arch list {own}) raised {type(e).__name__}: {e}"})
+                continue
+            if known != every:
+                fails.append({"model": model, "detail": f"overlay with arch list {own} on a master with arch list ['amd64', 'x86']: known_arches is {known}, the repository and its masters know {every}"})
+            for req, want in (([(atom("=cat/pkg-2"), ["amd64"])], [("cat/pkg-2", ["amd64"])]), ([(atom("=cat/pkg-2"), ["x86"] + list(own or ())[:1])], [("cat/pkg-2", sorted(["x86"] + list(own or ())[:1]))]),
+                              ([(atom("=cat/pkg-2"), ["*"])], [("cat/pkg-2", every)])):
+                cases += 1
+                try:
+                    got = [(r.pkg.cpvstr, sorted(r.keywords)) for r in match_packages(tree, req, stable=True)]
+                except Exception as e:
+                    got = f"{type(e).__name__}: {e}"
+                if got != want and len(fails) < 5:
+                    fails.append({"model": dict(model, request=[[str(a), k] for a, k in req]), "detail": f"overlay (arch list {own}) on master (amd64 x86), stabilisation request {[(str(a), k) for a, k in req]}: {got}, expected {want}"})
+    finally:
+        shutil.rmtree(scratch, ignore_errors=True)
+    return {"name": "C40.real_repositories.bounded_enumeration", "bound": "4 on-disk overlays (own arch list: one new arch, a new and a shared one, empty, absent) on a master with two arches: known_arches and 3 stabilisation requests each through the real match_packages",
+            "cases": cases, "failures": fails}
+
+
 def tasks():
     return [
         Task("C40.select_best_version", None, [(KW, "select_best_version")], enumerate=enum_best_version),
         Task("C40.filter_prefix_keywords", t_filter_prefix, [(KW, "filter_prefix_keywords")]),
+        Task("C40.real_repositories", None, [("src/pkgcore/ebuild/repository.py", "UnconfiguredTree.known_arches"), (KW, "match_packages")], enumerate=enum_real_repositories),
         Task("C40.requests", None, [(KW, "match_packages"), (KW, "suggested_keywords")], enumerate=enum_requests),
     ]
 
